@@ -296,6 +296,12 @@ func BuildConstraints(sel *Selection, params map[string][]string) error {
 	if len(params) == 0 {
 		return nil
 	}
+	for _, name := range []string{"depth", "fc.range", "fields", "fc.xfields", "fc.max-node-count", "content", "with-defaults", "where", "filter"} {
+		if len(params[name]) > 1 {
+			// RFC8040 Sec 4.8 - a parameter is given once, one of two values would win silently
+			return fmt.Errorf("%w. %s is given more than once", fc.BadRequestError, name)
+		}
+	}
 	constraints := NewConstraints(sel.Constraints)
 	maxDepth := MaxDepth{MaxDepth: 64}
 	if n, found := findIntParam(params, "depth"); found {
